@@ -35,6 +35,7 @@ RULE += '; a second stream of a same-named generator may be created in the same 
 RULE += "; the streamed generator receives keyword arguments named like a wrapper's own parameters"
 RULE += "; the second stream's source may be a partial / a callable object"
 RULE += '; source generators ending with unusual exceptions (attribute-rejecting, unrenderable, message-less, falsy)'
+RULE += '; awaitable items; a generator ending with an exception group of one member'
 LEVEL_TEXT = (
     "Four sub-claims per generated case: (a) the consumer receives exactly the items then the generator's end or its "
     "exception object; (b) probes inside the generator equal the creation environment; (c) the consumer's context "
@@ -92,9 +93,32 @@ class Ctx:
 _FALSY_ITEMS = [None, 0, "", (), False]
 
 
+class AwItem:
+    """an item that happens to be AWAITABLE (a ticket, a lazy result, a future-like handle): an item like any other - it is
+    handed to the consumer as it is, nobody awaits it on the way"""
+
+    def __init__(self, tag, i):
+        self.key = (tag, i)
+
+    def __eq__(self, other):
+        return isinstance(other, AwItem) and other.key == self.key
+
+    def __hash__(self):
+        return hash(self.key)
+
+    def __repr__(self):
+        return f"AwItem{self.key}"
+
+    def __await__(self):
+        return ("awaited", *self.key)
+        yield  # pragma: no cover - makes this a generator, as __await__ must return an iterator
+
+
 def _item(tag, i, case):
     """the i-th item of the stream: usually a tagged tuple; with "falsy_items" every second item is a falsy value or None
     (items are values, none of them is a sentinel)"""
+    if case.get("awaitable_items") and i % 2 == 0:
+        return AwItem(tag, i)
     if case.get("falsy_items") and i % 2 == 1:
         return _FALSY_ITEMS[(i // 2) % len(_FALSY_ITEMS)]
     return (tag, i)
@@ -129,7 +153,9 @@ def run_case(case) -> Outcome:  # noqa: C901, PLR0912, PLR0915
     unraisable_before = len(env.unraisable())
     # the generator's own exception may be an unusual one (nothing can be attached to it, it cannot be rendered, it has no
     # message, its instances are falsy): the consumer gets that very object all the same
-    gen_err = {None: GenErr, "frozen": P.ProgFrozen, "strraises": P.ProgStrRaises, "empty": P.ProgEmpty, "falsy": P.ProgFalsy}[case.get("err_kind")]("gen")
+    gen_err = {None: GenErr, "frozen": P.ProgFrozen, "strraises": P.ProgStrRaises, "empty": P.ProgEmpty, "falsy": P.ProgFalsy}[case.get("err_kind") if case.get("err_kind") != "group1" else None]("gen")
+    if case.get("err_kind") == "group1":
+        gen_err = ExceptionGroup("the generator's own group of one", [GenErr("member")])  # a group is an exception like any other
 
     async def main(loop):
         def x_completed(metrics):
@@ -216,7 +242,7 @@ def run_case(case) -> Outcome:  # noqa: C901, PLR0912, PLR0915
                 except StopAsyncIteration:
                     obs["end"] = "stop"
                     return True
-                except (GenErr, P.ProgErr) as exc:
+                except (GenErr, P.ProgErr, ExceptionGroup) as exc:
                     obs["end"] = ("raise", exc)
                     return True
                 obs["got"].append(item)
@@ -488,7 +514,8 @@ def strategy(tier):
             "gc_mid": (n + ba) % 4 == 1,
             "twin": ci in ("X", "XX") and (n + 2 * ba) % 3 == 1 and ["fn", "partial", "object", "partial_object"][(n + ba) % 4],
             "gen_kwargs": (n * 3 + ba) % 7,  # indices 5, 6 wrap to {} and the first set again
-            "err_kind": [None, None, "frozen", "strraises", "empty", "falsy"][(n * 5 + ba) % 6],
+            "err_kind": [None, None, "frozen", "strraises", "empty", "falsy", "group1"][(n * 5 + ba) % 7],
+            "awaitable_items": (n + ba) % 3 == 1,
 
         },  # fmt: skip
         st.one_of(st.integers(0, 4), st.integers(0, 4), st.integers(5, 14)),  # also long streams (many nested scopes / records)
@@ -518,7 +545,12 @@ def enumerate_cases(tier):
 
 
 def _odd_errors():
-    for kind in ("frozen", "strraises", "empty", "falsy"):
+    for n in (1, 3):
+        for ci, co in (("X", "same"), ("XX", "other_task"), ("none", "outside")):
+            for end in ("stop", "raise"):
+                yield {"items": n, "end": end, "gen_nested": False, "gen_record": False, "nested_stream": False, "create_in": ci, "consume": co, "mode": "full",
+                       "break_after": 0, "awaitable_items": True}  # fmt: skip
+    for kind in ("frozen", "strraises", "empty", "falsy", "group1"):
         for n in (0, 2):
             for ci, co in (("X", "same"), ("XX", "other_task"), ("none", "outside")):
                 yield {"items": n, "end": "raise", "gen_nested": False, "gen_record": False, "nested_stream": False, "create_in": ci, "consume": co, "mode": "full",
